@@ -5,7 +5,7 @@
                 1 = model and implementation differ, property still holds on the observation
                 2 = they differ and the property fails on the implementation's observation
                 3 = they agree and the property fails (model mirrors a defect) *)
-From Verif Require Export Lib.Bytes C15.Model C15.PointModel C15.PairModel.
+From Verif Require Export Lib.Bytes C15.Model C15.PointModel C15.PairModel C15.Proto C15.ProtoTable C15.Wrap.
 From VerifGen Require Import Consts.
 Open Scope N_scope.
 
@@ -111,7 +111,18 @@ Inductive case :=
 (* a well-formed request that makes the node's STORE panic (storage-layer fault), then a healthy
    request on a new connection: did the panic escape handleConn (= the data node process dies),
    did the listener count it, was the next request served *)
-| CRecover (escaped counted next_served : bool).
+| CRecover (escaped counted next_served : bool)
+(* a value m of the data.proto message [name] (built by reflection over the real struct):
+   bytes and error flag of the real proto.Marshal; class (0 ok / 1 error / 2 panic) and value of
+   the real proto.Unmarshal of those bytes *)
+| CPbEnc (name : bytes) (m : msgv) (real_bytes : bytes) (real_err : bool) (cls : N) (dm : msgv)
+(* arbitrary / mutated / truncated bytes through the real proto.Unmarshal into message [name]:
+   class, decoded value (unknown fields included), its real re-marshaling and error flag *)
+| CPbDec (name : bytes) (b : bytes) (cls : N) (dm : msgv) (remarshal : bytes) (re_err : bool)
+(* the field tables of the registered message types as the binary's reflection sees them *)
+| CPbSchema (r : reflected)
+(* rpc.go wrappers: see Wrap.v *)
+| CWrap (w : wrap_case).
 
 Definition model_reply_types (evs : list event) : list N :=
   flat_map (fun e => match e with EReply t _ => [t] | _ => [] end) evs.
@@ -214,4 +225,39 @@ Definition check_case (c : case) : N :=
       (* model of handleConn: a handler panic is recovered by the connection's goroutine, counted,
          the connection is dropped; the listener goes on serving *)
       code (negb escaped && counted && next_served) (negb escaped && next_served)
+  | CPbEnc name m rb rerr cls dm =>
+      match schema_by_name name with
+      | None => code false true          (* the harness names a message the regenerated table lacks *)
+      | Some s =>
+        let agree_enc := bytes_eqb (encode rpc_depth s m) rb &&
+                         Bool.eqb (complete rpc_depth s m) (negb rerr) in
+        let agree_dec := match decode rpc_depth s rb with
+                         | ROk x => N.eqb cls 0 && msgv_eqb rpc_depth x dm
+                         | RErr => N.eqb cls 1
+                         | RCrash => N.eqb cls 2
+                         end in
+        (* lossless: what the sender could marshal is what the receiver gets *)
+        let spec_ok := negb (N.eqb cls 2) && (rerr || (N.eqb cls 0 && msgv_eqb rpc_depth dm m)) in
+        code (agree_enc && agree_dec) spec_ok
+      end
+  | CPbDec name b cls dm re reerr =>
+      match schema_by_name name with
+      | None => code false true
+      | Some s =>
+        let agree := match decode rpc_depth s b with
+                     | ROk x => N.eqb cls 0 && msgv_eqb rpc_depth x dm &&
+                                bytes_eqb (encode rpc_depth s x) re &&
+                                Bool.eqb (complete rpc_depth s x) (negb reerr)
+                     | RErr => N.eqb cls 1
+                     | RCrash => N.eqb cls 2
+                     end in
+        (* never a panic; what is kept of the input is no larger than the input *)
+        let spec_ok := negb (N.eqb cls 2) &&
+                       (negb (N.eqb cls 0) || (msize rpc_depth (fst dm) (snd dm) <=? length b)%nat) in
+        code agree spec_ok
+      end
+  | CPbSchema r =>
+      code (table_matches r && c15_pb_matches_proto && all_wf &&
+            names_distinct (map fst c15_rpc_messages)) true
+  | CWrap w => let '(a, sp) := check_wrap w in code a sp
   end.
